@@ -155,6 +155,10 @@ class World:
             out = tuple[tuple(self.typ(x) for x in spec["items"])]
         elif k == "union":
             out = typing.Union[tuple(self.typ(x) for x in spec["items"])]
+        elif k == "listof":
+            out = list[self.typ(spec["item"])]
+        elif k == "dictof":
+            out = dict[str, self.typ(spec["item"])]
         elif k == "iter":
             out = typing.Iterator[self.typ(spec["item"])]
         else:
